@@ -6,7 +6,7 @@ package gen
 // INTEGER = int64, FLOAT = IEEE double, RTIME = milliseconds, BOOL, STRING = (bytes, not-set),
 // short-circuit logical operators, first-matching switch case with fallthrough, assignment
 // operators per type. The generator uses the evaluator while generating, so that every EXECUTED
-// statement stays within range (no overflow, no division by zero, shift counts 0..63): what happens
+// statement stays within range (no overflow, no division by zero, shift counts 0..1000 - 64 and more shift every bit out, rotations count modulo 64): what happens
 // outside that range belongs to property C08, not to C07/C13.
 
 import (
@@ -210,6 +210,7 @@ type Env struct {
 	Trace      []TraceStep
 	Subs       map[string]*TSub
 	depth      int
+	wsBytes    int
 	nullText   bool
 	hdrCtx     bool
 	// Pre, when TracePre is set, is the state BEFORE each executed statement of the driven
@@ -560,6 +561,12 @@ func (e *Env) assign(cur TVal, op string, val TVal) TVal {
 			e.oor("RTIME scaling beyond the exactly representable range")
 			return cur
 		}
+		if f*1024 != math.Trunc(f*1024) {
+			// a factor like 0.3 has no exact binary form: the product depends on the unit the implementation
+			// multiplies in (135090 ms, but 135089.999... when the duration is held in nanoseconds)
+			e.oor("RTIME scaling by a factor that is no multiple of 1/1024")
+			return cur
+		}
 		r := float64(cur.Ms) * f
 		if op == "/=" {
 			r = float64(cur.Ms) / f
@@ -625,9 +632,22 @@ func (e *Env) assign(cur TVal, op string, val TVal) TVal {
 		case "^=":
 			return TVal{T: TI, I: a ^ b}
 		case "<<=", ">>=", "rol=", "ror=":
-			if b < 0 || b > 63 {
+			if b < 0 || b > 1000 {
 				e.oor("shift count")
 				return cur
+			}
+			if b > 63 {
+				// every bit is shifted out (an arithmetic right shift leaves the sign); a rotation counts modulo 64
+				switch op {
+				case "<<=":
+					return TVal{T: TI, I: 0}
+				case ">>=":
+					if a < 0 {
+						return TVal{T: TI, I: -1}
+					}
+					return TVal{T: TI, I: 0}
+				}
+				b %= 64
 			}
 			switch op {
 			case "<<=":
@@ -761,6 +781,13 @@ func (e *Env) ExecAt(stmts []TStmt, base int) bool {
 					}
 				} else {
 					e.Hdrs[k] = TVal{T: TS, S: strOf(cur) + strOf(val)}
+				}
+				// every write of a request header is charged to the request workspace (256 KiB, never reclaimed);
+				// programs that come near it belong to the limits (C08), not to the semantics
+				e.wsBytes += len(k) + len(e.Hdrs[k].S) + 64
+				if e.wsBytes > 150000 {
+					e.oor("request header writes beyond the workspace the reference models")
+					return false
 				}
 			} else {
 				e.Vars[t.Target] = e.assign(e.Vars[t.Target], t.Op, val)
@@ -1162,6 +1189,9 @@ func (g *TG) setStmt() TStmt {
 		switch op {
 		case "<<=", ">>=", "rol=", "ror=":
 			val = TLit{V: TVal{T: TI, I: int64(r.Intn(64))}}
+			if r.Intn(6) == 0 {
+				val = TLit{V: TVal{T: TI, I: []int64{64, 65, 127, 128, 130, 200}[r.Intn(6)]}}
+			}
 			val = TLit{V: val.(TLit).V, Src: strconv.FormatInt(val.(TLit).V.I, 10)}
 			if lv, ok := g.varOf(TI); ok && r.Intn(3) == 0 {
 				val = lv
